@@ -452,7 +452,8 @@ fn pa_value(alg: u16, params: &[u8]) -> Vec<u8> {
 /// menus use stands for itself. Read left to right: a backslash takes the next character with it, the first DQUOTE that is
 /// not taken this way closes the quoted form.
 pub fn quoted_ref(s: &str) -> String {
-    let t = s.trim_start_matches([' ', '\t', '\r', '\n']);
+    let lws = [' ', '\t', '\r', '\n'];
+    let t = s.trim_start_matches(lws);
     if let Some(inner) = t.strip_prefix('"') {
         let mut out = String::new();
         let mut it = inner.chars();
@@ -471,8 +472,25 @@ pub fn quoted_ref(s: &str) -> String {
                 out.push(c);
             }
         }
+        return s.to_string();
     }
-    s.to_string()
+    // not the quoted form: the text without the white space around it (white space taken by a backslash belongs to the text)
+    let mut out = String::new();
+    let mut keep = 0; // length of `out` up to the last character that is not trailing white space
+    let mut it = t.chars();
+    while let Some(c) = it.next() {
+        out.push(c);
+        if c == '\\' {
+            if let Some(d) = it.next() {
+                out.push(d);
+            }
+            keep = out.len();
+        } else if !lws.contains(&c) {
+            keep = out.len();
+        }
+    }
+    out.truncate(keep);
+    out
 }
 
 /// Value bytes of a non-verifiable attribute.
